@@ -178,7 +178,7 @@ def det(A):
 
 def inv(A):
     """Inverse of an array `A` over trailing axis (if any)."""
-    invA = zeros_like(A)
+    invA = zeros_like(A, dtype=np.result_type(A, float))
     detA = det(A)
     if A.shape[0] == 3:
         invA[0, 0] = (-A[1, 2] * A[2, 1] +
